@@ -215,6 +215,17 @@ type HasMapOpt struct {
 	M MapOptT
 }
 
+// OptColl: optional and nullable fields holding collections or bytes -- a present but empty value
+// is not a missing one.
+type OptColl struct {
+	L  *[]string
+	B  *[]byte
+	M  *OMap
+	NL *[]int64
+	OB *[]byte
+	Z  int64
+}
+
 // UK2 is a kinded union whose members include structs that are not maps in representation.
 type UK2 struct {
 	T *Tuple
@@ -286,6 +297,7 @@ type HasMapN struct { M MapN  LL StrListList  NL nullable IntList }
 type OptV struct { A optional String  L [Int]  M OMap }
 type MapOpt {String:OptV}
 type HasMapOpt struct { M MapOpt }
+type OptColl struct { L optional StrList  B nullable Bytes  M optional OMap  NL nullable IntList  OB optional Bytes  Z Int }
 type UK2 union { | Tuple list | Joined string | Int int } representation kinded
 type HasUK2 struct { A UK2  B UK2  C UK2  D UK2 }
 type UList [Int]
@@ -369,6 +381,10 @@ var vocab = []vtype{
 				return &Reprs{T: Tuple{1, -2}, J: Joined{"left", "right"}, R: Renamed{Alpha: "al", Beta: ip(5)}}
 			},
 			func() interface{} { return &Reprs{T: Tuple{0, 0}, J: Joined{"", "x"}, R: Renamed{Alpha: ""}} },
+			func() interface{} { return &Reprs{T: Tuple{-1, 1}, J: Joined{"x", ""}, R: Renamed{Alpha: "a"}} },
+			func() interface{} {
+				return &Reprs{T: Tuple{2, 2}, J: Joined{"", ""}, R: Renamed{Alpha: "b", Beta: ip(0)}}
+			},
 		}},
 	{name: "Links", schema: "Links", inferable: true, ptr: func() interface{} { return (*Links)(nil) },
 		vals: []func() interface{}{
@@ -476,8 +492,21 @@ var vocab = []vtype{
 					"mid":  {A: nil, L: []int64{7}, M: OMap{Keys: []string{"z"}, Values: map[string]int64{"z": -1}}}}}}
 			},
 		}},
+	{name: "OptColl", schema: "OptColl", ptr: func() interface{} { return (*OptColl)(nil) },
+		vals: []func() interface{}{
+			func() interface{} {
+				return &OptColl{L: &[]string{}, B: &[]byte{}, M: &OMap{Keys: []string{}, Values: map[string]int64{}}, NL: &[]int64{}, OB: &[]byte{}, Z: 1}
+			},
+			func() interface{} { return &OptColl{Z: 2} },
+			func() interface{} {
+				return &OptColl{L: &[]string{"a", ""}, B: &[]byte{0}, M: &OMap{Keys: []string{"k"}, Values: map[string]int64{"k": 1}}, NL: &[]int64{0}, OB: &[]byte{0x6f, 0x62}, Z: 3}
+			},
+		}},
 	{name: "HasUK2", schema: "HasUK2", ptr: func() interface{} { return (*HasUK2)(nil) },
 		vals: []func() interface{}{
+			func() interface{} {
+				return &HasUK2{A: UK2{T: &Tuple{3, 4}}, B: UK2{J: &Joined{"l", "r"}}, C: UK2{N: ip(5)}, D: UK2{J: &Joined{"trailing-empty", ""}}}
+			},
 			func() interface{} {
 				return &HasUK2{A: UK2{T: &Tuple{3, 4}}, B: UK2{J: &Joined{"l", "r"}}, C: UK2{N: ip(5)}, D: UK2{T: &Tuple{0, -1}}}
 			},
